@@ -12,7 +12,7 @@ TECHNIQUE = ("bounded-exhaustive enumeration of host operator trees x launch pla
              "(time-shifted) trace vs attributes recomputed from the reference tree")
 RULE = ("single-thread family: every positive-duration laminar family of <=N host ops x every placement of <=K launch "
         "calls (inside any op or at top level) x per launch {kernel on stream 7|9 with duration 0|3, no device "
-        "activity} x optional unlinked kernel; two-thread family: main thread with 0..2 profiler steps and 0..2 "
+        "activity} x optional unlinked kernel x host thread id in {100, and for small families 1, 2, 3}; two-thread family: main thread with 0..2 profiler steps and 0..2 "
         "'## backward ##' annotations x autograd-thread top-level ops placed inside / straddling / outside each "
         "annotation x {one autograd thread, two autograd threads, no step thread}, each also as rank 1 of a two-rank job with the call graph built over all ranks; epoch offset 1.7e15 so shifted "
         "and unshifted times differ. non-trivial = some host event has device descendants below a child, or a "
@@ -51,6 +51,12 @@ def worlds(tier: str, stats: Dict[str, Any]) -> Iterator[Any]:
                             stats["transitions"] += 1
                             yield dict(mode="tree", fam=[list(x) for x in fam], launches=[[p, list(d)] for p, d in zip(pl, devs)],
                                        orphan=orphan)
+                            if n <= 2 and not orphan:
+                                # small thread ids: the root of a thread's stack is numbered -tid, next to the sentinels -1 / -2
+                                for tid in (1, 2, 3):
+                                    stats["transitions"] += 1
+                                    yield dict(mode="tree", fam=[list(x) for x in fam], launches=[[p, list(d)] for p, d in zip(pl, devs)],
+                                               orphan=False, tid=tid)
     # two-thread family
     ann_layouts = [
         dict(steps=[], bwd=[]),
@@ -72,10 +78,11 @@ def worlds(tier: str, stats: Dict[str, Any]) -> Iterator[Any]:
 
 
 def build_tree_world(w) -> List[Dict[str, Any]]:
-    evs = [kineto.cpu_op("aten::root", E0 - 9, 3, ext=0)]
+    tid = w.get("tid", 100)
+    evs = [kineto.cpu_op("aten::root", E0 - 9, 3, ext=0, tid=tid)]
     fam = w["fam"]
     for j, (s, e) in enumerate(fam):
-        evs.append(kineto.cpu_op(f"aten::op{j}", E0 + S * s, S * (e - s), ext=j + 1))
+        evs.append(kineto.cpu_op(f"aten::op{j}", E0 + S * s, S * (e - s), ext=j + 1, tid=tid))
     T = E0 + S * (max(e for _, e in fam) + 1)
     corr = 50
     used: Dict[int, int] = {}
@@ -89,7 +96,7 @@ def build_tree_world(w) -> List[Dict[str, Any]]:
             # unless they share the start: then the launch [s+1+2*slot, +1) still nests properly inside both or
             # inside the shorter one, which the reference computes anyway)
             ts = E0 + S * fam[place][0] + 1 + 2 * slot
-        evs.append(kineto.runtime("cudaLaunchKernel", ts, 1, corr))
+        evs.append(kineto.runtime("cudaLaunchKernel", ts, 1, corr, tid=tid))
         if dev[0] == "k":
             evs.append(kineto.kernel(f"kern_{dev[1]}", ts + 2 + 5 * slot, dev[2], dev[1], corr))
         corr += 1
